@@ -362,7 +362,7 @@ where
 
             token::required_newline(&mut self.parser.reader)?;
         }
-        self.parser.code += 2;
+        self.parser.code = self.parser.code.wrapping_add(2);
         Ok(Some(OrderedLatch {
             next_state,
             initialization,
@@ -639,7 +639,7 @@ where
             "first input code",
         )?;
 
-        self.parser.code += 2;
+        self.parser.code = self.parser.code.wrapping_add(2);
         Ok(Some(OrderedAndGate {
             inputs: [L::from_code(input_code_0), L::from_code(input_code_1)],
         }))
